@@ -119,7 +119,25 @@ fn disagreement(imp: &mut Impl, model: &mut Model, p: &Program, st: &Style, opt:
 ///         use by an operation that is itself unused and skipped does not count.
 /// Returns the program with the skipped operations replaced by a literal.  The unoptimised run
 /// of the same program must still match the reference exactly (checked by the caller).
+static SHRINKING: std::sync::atomic::AtomicBool = std::sync::atomic::AtomicBool::new(false);
+static SKIP_BUDGET: std::sync::atomic::AtomicI64 = std::sync::atomic::AtomicI64::new(0);
+
+/// entry point: bounds the number of reference evaluations spent on one case
 fn permitted_arith_skip(model: &mut Model, p: &Program, impl_out: &str, depth: u32) -> Option<Program> {
+    let budget = if SHRINKING.load(std::sync::atomic::Ordering::Relaxed) { 300 } else { 4000 };
+    SKIP_BUDGET.store(budget, std::sync::atomic::Ordering::Relaxed);
+    let t0 = std::time::Instant::now();
+    let r = permitted_arith_skip_(model, p, impl_out, depth);
+    if t0.elapsed().as_secs() >= 3 {
+        eprintln!("slow permitted-skip search: {:?} size {} accepted {}", t0.elapsed(), p.expr.size(), r.is_some());
+    }
+    r
+}
+
+fn permitted_arith_skip_(model: &mut Model, p: &Program, impl_out: &str, depth: u32) -> Option<Program> {
+    if SKIP_BUDGET.load(std::sync::atomic::Ordering::Relaxed) <= 0 {
+        return None;
+    }
     let base = model.eval(&mg::sexp::program_to_sexp(p));
     if !base.starts_with("(err arith") {
         return None;
@@ -139,23 +157,35 @@ fn permitted_arith_skip(model: &mut Model, p: &Program, impl_out: &str, depth: u
         return None;
     }
     let with = |idx: usize, e: &Expr| Program { types: p.types.clone(), expr: mg::generate::replace_subexpr(&p.expr, idx, e), ty: p.ty.clone() };
-    // Which operation fails?  A node is *started* before the failure when replacing it by a
-    // marker failure surfaces the marker; it *completed* before the failure when a marker placed
-    // right after it surfaces.  The failing operation is started but not completed, and so are
-    // the operations it is (dynamically) nested in; candidates are the innermost such nodes.
-    let started_mark = Expr::Error("~s~".into());
+    // Which operation fails?  Each candidate node N is wrapped, for the reference evaluator only,
+    // as `eff KS; let m_ = N in eff KC; m_`: the log of the (unchanged) Arith outcome then tells
+    // how often N was started and how often it completed.  The failing operation, and the
+    // operations it is dynamically nested in, were started once more than they completed; an
+    // operation in a loop may have completed several times before it fails.
+    const KS: i64 = 912_345_671;
+    const KC: i64 = 912_345_672;
     let mut open: Vec<(usize, bool, usize)> = vec![]; // (index, Int?, subtree size)
     for (idx, is_int, sub) in &nodes {
-        let s_out = model.eval(&mg::sexp::program_to_sexp(&with(*idx, &started_mark)));
-        if !s_out.starts_with("(err explicit 126 115 126 ") {
+        if SKIP_BUDGET.fetch_sub(1, std::sync::atomic::Ordering::Relaxed) <= 0 {
+            return None;
+        }
+        let wrapped = Expr::Let(
+            Pat::Wild,
+            Box::new(eff(int(KS))),
+            Box::new(Expr::Let(
+                Pat::Var("m_".into()),
+                Box::new(sub.clone()),
+                Box::new(Expr::Let(Pat::Wild, Box::new(eff(int(KC))), Box::new(var("m_")))),
+            )),
+        );
+        let out = model.eval(&mg::sexp::program_to_sexp(&with(*idx, &wrapped)));
+        if !out.starts_with("(err arith") {
             continue;
         }
-        let after = Expr::Let(Pat::Var("m_".into()), Box::new(sub.clone()), Box::new(Expr::Error("~c~".into())));
-        let c_out = model.eval(&mg::sexp::program_to_sexp(&with(*idx, &after)));
-        if c_out.starts_with("(err explicit 126 99 126 ") {
-            continue;
+        let count = |k: i64| out.split_whitespace().filter(|t| t.trim_end_matches(')') == k.to_string()).count();
+        if count(KS) > count(KC) {
+            open.push((*idx, *is_int, sub.size()));
         }
-        open.push((*idx, *is_int, sub.size()));
     }
     // innermost first; an enclosing operation is a candidate too (`0 #Int/ (0 #Int/ 0)` unused:
     // the inner result is used only by an operation that is skipped itself), provided everything
@@ -186,7 +216,7 @@ fn permitted_arith_skip(model: &mut Model, p: &Program, impl_out: &str, depth: u
             return Some(q);
         }
         if depth > 0 && m.starts_with("(err arith") {
-            return permitted_arith_skip(model, &q, impl_out, depth - 1);
+            return permitted_arith_skip_(model, &q, impl_out, depth - 1);
         }
         None
     }
@@ -223,7 +253,7 @@ fn shrink(imp: &mut Impl, model: &mut Model, p: &Program, st: &Style, opt: bool)
             }
             attempts += 1;
             // candidates of an optimiser-on Arith disagreement each run the permitted-skip search
-            let cap = if opt && want.as_ref().map_or(false, |w| w.0.starts_with("(err arith")) { 300 } else { 6000 };
+            let cap = if opt && want.as_ref().map_or(false, |w| w.0.starts_with("(err arith")) { 150 } else { 6000 };
             if attempts > cap {
                 break 'outer;
             }
@@ -403,7 +433,9 @@ fn main() {
                 if mo != oc && mo != "(fuel)" && n_shrunk < max_shrink && *shrunk_per_class.entry(prov.clone()).or_insert(0u32) < 2 {
                     *shrunk_per_class.get_mut(&prov).unwrap() += 1;
                     n_shrunk += 1;
+                    SHRINKING.store(true, std::sync::atomic::Ordering::Relaxed);
                     let (small, steps) = shrink(imp, m, p, st, opt);
+                    SHRINKING.store(false, std::sync::atomic::Ordering::Relaxed);
                     let (e2, o2) = disagreement(imp, m, &small, st, opt).unwrap_or((mo.clone(), oc.clone()));
                     // does the disagreement need the optimiser?
                     let optimizer_only = opt && disagreement(imp, m, &small, st, false).is_none();
